@@ -40,6 +40,13 @@ type failingWriter struct {
 }
 
 func (w *failingWriter) Header() http.Header { return w.hdr }
+
+// ReadFrom as net/http's own response writer offers it (io.ReaderFrom): everything the reader has, in one Write
+func (w *failingWriter) ReadFrom(r io.Reader) (int64, error) {
+	b, _ := ioutil.ReadAll(r)
+	n, err := w.Write(b)
+	return int64(n), err
+}
 func (w *failingWriter) WriteHeader(n int) {
 	if w.status == 0 {
 		w.status = n
@@ -264,7 +271,13 @@ func runRespOps(resp *restful.Response, ops []Sx, pretty bool, w *failingWriter)
 		var err error
 		switch sxInt(sxNth(op, 0)) {
 		case 0:
-			_, err = resp.Write([]byte(sxStr(sxNth(op, 1))))
+			if data := sxStr(sxNth(op, 1)); len(data)%4 == 3 {
+				// the same bytes streamed onto the Response with io.Copy from a source without a WriteTo of its own (a
+				// file, a pipe): one Write of the same bytes today; the server's writer below offers ReadFrom
+				_, err = io.Copy(resp, io.LimitReader(strings.NewReader(data), int64(len(data))))
+			} else {
+				_, err = resp.Write([]byte(data))
+			}
 			full = append(full, op)
 		case 1:
 			resp.WriteHeader(sxInt(sxNth(op, 1)))
